@@ -8,11 +8,11 @@ export CARGO_TARGET_DIR="$W/target" CARGO_NET_OFFLINE=true
 git checkout -q -- . 2>/dev/null
 [ -f patch.diff ] && [ -f demo/run.sh ] && [ -f meta.json ] || { echo "missing deliverables in $W"; exit 2; }
 chmod +x demo/run.sh
-sh demo/run.sh >/tmp/vs_demo_clean.log 2>&1; RC_CLEAN=$?
+bash demo/run.sh >/tmp/vs_demo_clean.log 2>&1; RC_CLEAN=$?
 git apply patch.diff || { echo "patch does not apply"; exit 2; }
 cargo test --offline --workspace >/tmp/vs_tests.log 2>&1; RC_TESTS=$?
 NPASS=$(grep -E '^test result' /tmp/vs_tests.log | awk '{s+=$4} END{print s}')
-sh demo/run.sh >/tmp/vs_demo_mut.log 2>&1; RC_MUT=$?
+bash demo/run.sh >/tmp/vs_demo_mut.log 2>&1; RC_MUT=$?
 git checkout -q -- chiritori chiritori-cli; git clean -fdq chiritori chiritori-cli
 echo "demo without change: exit $RC_CLEAN ; tests with change: exit $RC_TESTS ($NPASS passed) ; demo with change: exit $RC_MUT"
 if [ $RC_CLEAN -eq 0 ] && [ $RC_TESTS -eq 0 ] && [ $RC_MUT -ne 0 ]; then
@@ -27,6 +27,6 @@ json.dump(m,open(f'/verif/seeded/{name}/meta.json','w'),indent=1,ensure_ascii=Fa
 PY
   echo "KEPT as /verif/seeded/$NAME"
 else
-  echo "NOT CONFIRMED"; tail -5 /tmp/vs_demo_clean.log /tmp/vs_demo_mut.log
+  echo "NOT CONFIRMED"; tail -n 5 /tmp/vs_demo_clean.log; tail -n 5 /tmp/vs_demo_mut.log
 fi
 rm -rf "$W/target"
